@@ -139,7 +139,7 @@ pub fn task_to(t: &TaskSpec) -> Value {
     json!({
         "front_end": t.front.name(),
         "registry": reg_to(&t.registry),
-        "finish": match t.fin { Fin::Finish => "finish", Fin::IntoInner => "into_inner" },
+        "finish": match t.fin { Fin::Finish => "finish", Fin::IntoInner => "into_inner", Fin::Abandon => "dropped_without_finish" },
         "ops": Value::Array(t.ops.iter().map(op_to).collect()),
     })
 }
@@ -148,6 +148,7 @@ pub fn task_from(v: &Value) -> R<TaskSpec> {
     let fin = match get_str(v, "finish")? {
         "finish" => Fin::Finish,
         "into_inner" => Fin::IntoInner,
+        "dropped_without_finish" => Fin::Abandon,
         x => return Err(format!("bad finish {}", x)),
     };
     let mut ops = Vec::new();
@@ -236,6 +237,7 @@ pub fn plan_to(p: &Plan) -> Value {
         "fault_at_flush_call": match &p.fault_flush { None => Value::Null, Some((i, k)) => json!({"index": i, "err": k.name()}) },
         "native_vectored_writes": p.vectored,
         "error_representation": p.err_repr.name(),
+        "writer_builds_another_fst_inside_every_nth_write": p.reenter_every,
     })
 }
 pub fn plan_from(v: &Value) -> R<Plan> {
@@ -290,6 +292,7 @@ pub fn plan_from(v: &Value) -> R<Plan> {
         fault_write,
         fault_flush,
         vectored: v.get("native_vectored_writes").and_then(|x| x.as_bool()).unwrap_or(false),
+        reenter_every: v.get("writer_builds_another_fst_inside_every_nth_write").and_then(|x| x.as_u64()).unwrap_or(0) as usize,
         err_repr: v.get("error_representation").and_then(|x| x.as_str()).and_then(crate::sink::ErrRepr::from_name).unwrap_or(crate::sink::ErrRepr::Message),
     })
 }
